@@ -75,6 +75,11 @@ func catalog(p ScenParams) *WSpec {
 	case "g4": // fan-out P -> {Q, R}
 		w.Procs = []ProcSpec{src, simpleProc("p", kind), simpleProc("q", kind), simpleProc("r", kind)}
 		w.Edges = []Edge{fe("src", "out", "p", "in"), fe("p", "out", "q", "in"), fe("p", "out", "r", "in")}
+	case "g4s": // two processes whose names differ only in characters the sanitizer folds ("Wx", "wx"), fed by the same out-port
+		a := ProcSpec{Name: "Wx", Kind: kind, Ins: []string{"in"}, Outs: []OutSpec{{Name: "out", Pattern: "{i:in}.wa"}}}
+		b := ProcSpec{Name: "wx", Kind: kind, Ins: []string{"in"}, Outs: []OutSpec{{Name: "out", Pattern: "{i:in}.wb"}}}
+		w.Procs = []ProcSpec{src, a, b}
+		w.Edges = []Edge{fe("src", "out", "Wx", "in"), fe("src", "out", "wx", "in")}
 	case "g5": // fan-in {src, src2} -> P.in
 		src2 := ProcSpec{Name: "src2", Kind: "src", Items: srcItems("jn", 1)}
 		w.Procs = []ProcSpec{src, src2, simpleProc("p", kind)}
